@@ -65,6 +65,10 @@ pub async fn on_range_formatting_handler(
             .get_db()
             .get_vfs()
             .get_syntax_tree(&file_id)?;
+        // like full-document formatting: never format a document that has syntax errors
+        if syntax_tree.has_syntax_errors() {
+            return None;
+        }
         let chunk = syntax_tree.get_chunk_node();
         let config = build_workspace_formatter_config(
             Some(file_path.as_path()),
